@@ -19,7 +19,7 @@ DECIDED = [
     "sets next_execution_time from compute_next_execution_time, all on a copy; Message.reschedule and the processor requeue that result",
     "R-C06-ANCHOR: the field compute_next_execution_time uses as the origin of the period grid must not be overwritten "
     "on reschedule by a value unrelated to the previous grid (def-use rule for the cadence)",
-    "R-C06-FIRST: the job's deferred_until reaches delay_until, and compute_next_execution_time returns delay_until "
+    "R-C06-FIRST: (no due time is carried as timedelta.seconds without .days - whole days are not dropped;) the job's deferred_until reaches delay_until, and compute_next_execution_time returns delay_until "
     "first while it is still ahead",
 ]
 NOT_DECIDED = ["the period arithmetic itself (strictly in the future, at most one period ahead): runtime values, see C19"]
@@ -79,8 +79,7 @@ def anchor(ctx: Ctx, info: dict) -> None:
                       "less than one period apart", node=node, instance=f"grid anchor '{field}' provenance")
 
 
-def first_run(ctx: Ctx) -> None:
-    rule = "R-C06-FIRST"
+def first_run(ctx: Ctx, rule: str = "R-C06-FIRST") -> None:
     f = ctx.func("repid.job.Job._construct_parameters")
     cons = C.constructions(ctx, f, [f.node], "DELAY_CLASS")
     ctx.require(len(cons) == 1, f"{f.qualname}: DELAY_CLASS(...) construction not found")
